@@ -913,12 +913,18 @@ def check_C06(replay=None):
     def comp(c):
         dest = c["path"][:-4] + ".lc3"
         # what is at the destination beforehand must not matter: nothing, a shorter file, a much longer one
-        pre = sum(c["path"].encode()) % 3
+        pre = sum(c["path"].encode()) % 4
         if pre:
             open(dest, "wb").write(b"\xaa" * (3 if pre == 1 else 300000))
+        if pre == 3:
+            # ... and the old file has a second name (hard link)
+            other = dest + ".link"
+            if os.path.lexists(other):
+                os.remove(other)
+            os.link(dest, other)
         code, out, err = vlib.run_lace(["compile"] + _flag(c["stack"]) + [c["path"], dest])
         b = list(open(dest, "rb").read(200000)) if code == 0 and os.path.exists(dest) else []
-        return {"ev": "compile", "tag": c["tag"] + ":" + ("absent", "short", "long")[pre], "ast": c["ast"], "stack": c["stack"], "code": code, "bytes": b, "src": c["src"]}
+        return {"ev": "compile", "tag": c["tag"] + ":" + ("absent", "short", "long", "long-hardlink")[pre], "ast": c["ast"], "stack": c["stack"], "code": code, "bytes": b, "src": c["src"]}
     events += parallel(comp, man, 8)
     # (2) run from source vs from object file
     d2, man2 = _files(chk, "exec", 150 * SCALE if thorough else 24)
@@ -1052,10 +1058,15 @@ def _watch_smoke(chk):
               # (valid = None: the verdict of a fresh `lace check` is taken as the reference for these)
               ("warn1", "far halt\nm .blkw #-3\n", None, []),
               ("warn2", ".blkw #-3\nm halt\n", None, []),
-              ("warn3", "far halt\nm .blkw #-3\n.blkw #-2\n", None, [])]
+              ("warn3", "far halt\nm .blkw #-3\n.blkw #-2\n", None, []),
+              # a warning printed by a text that then fails; nothing of it may show up in the next re-check
+              ("warnfail", ".blkw #-3\nfar add r0 r0 $1\n", None, []),
+              ("ok5", "far halt\n", True, []),
+              ("origfar", ".orig x4000\nfar halt\nm ld r0 v\n.blkw #300\nv halt\n", None, []),
+              ("noorigfar", "far ld r0 v\n.blkw #300\nv halt\n", None, [])]
     events = []
     for flags, extra in (([], [("stack-off", "far halt\npush r1\n", False, []), ("ok4", "far halt\n", True, [])]), (["-f", "stack"], [("stack-on", "far halt\nm push r1\n", True, []), ("ok4", "m halt\n", True, [])])):
-        put("halt\n")
+        put("far halt\nm halt\n")
         try:
             p = _sp.Popen([vlib.LACE_BIN, "watch"] + flags + [f], stdout=_sp.PIPE, stderr=_sp.STDOUT, cwd=d)
         except Exception:
@@ -1114,7 +1125,8 @@ def check_C07(replay=None):
                 "codes": [ck[0], cp[0], rn[0]], "src": c["src"]}
     events = parallel(agree, jobs, 8)
     # sources that are not valid UTF-8 (a stray Latin-1 byte in a comment, in a string, in code): nobody may accept what the others refuse
-    for k, raw in enumerate([b"halt ; caf\xe9\n", b"halt\n.stringz \"caf\xe9\"\n", b"halt\nl\xe9 add r0 r0 r0\n", b"\xff\xfehalt\n", b"halt\n; \xc3\n", b"halt\n;\xf0\x9f\x98\n"]):
+    for k, raw in enumerate([b"halt ; caf\xe9\n", b"halt\n.stringz \"caf\xe9\"\n", b"halt\nl\xe9 add r0 r0 r0\n", b"\xff\xfehalt\n", b"halt\n; \xc3\n", b"halt\n;\xf0\x9f\x98\n",
+                             b"\xef\xbb\xbfhalt\n", b"\xef\xbb\xbf; c\nhalt\n", b"halt\n\x00\n", b"halt\n\x1a"]):
         pth = os.path.join(d, "raw%d.asm" % k)
         open(pth, "wb").write(raw)
         for f in (False, True):
